@@ -10,6 +10,7 @@ cancel-scope semantics (independent of anyio's code) judges the history.  Rules 
 from __future__ import annotations
 
 import asyncio
+import math
 import copy
 import random
 from collections import Counter, defaultdict
@@ -42,20 +43,28 @@ class BaseBoom(BaseException):
         self.eid = eid
 
 
+class FalsyBoom(Boom):
+    """An exception object that is false in a boolean context (e.g. an error collection with __len__ that is empty):
+    whether a task failed must be decided by `is not None`, never by the truth value of the exception."""
+
+    def __bool__(self):
+        return False
+
+
 BOOMS = (Boom, BaseBoom)
 
 
 def make_boom(eid):
-    return BaseBoom(eid) if eid % 5 == 0 else Boom(eid)
+    return BaseBoom(eid) if eid % 5 == 0 else FalsyBoom(eid) if eid % 7 == 3 else Boom(eid)
 
 
 # ------------------------------------------------------------------------------------------
 # generator
 # ------------------------------------------------------------------------------------------
 BASE_W = dict(cp=20, sleep=18, scope=15, cancel=12, shield=4, deadline=2, group=10, spawn=12, start=3,
-              raise_=3, tryfin=5, wait=2, set=2, probe=1, atimeout=0, join=1)
+              raise_=3, tryfin=5, wait=2, set=2, probe=1, atimeout=0, join=1, ncancel=0)
 PROP_W = {
-    "C01": dict(spawn=18, group=12, tryfin=7, cancel=12, start=4),
+    "C01": dict(spawn=18, group=12, tryfin=7, cancel=12, start=4, ncancel=6),
     "C02": dict(raise_=9, tryfin=8, spawn=16, group=12, start=5),
     "C03": dict(cancel=16, scope=18, shield=7, spawn=12, wait=5, set=4, sleep=20, start=1),
     "C04": dict(scope=22, shield=8, cancel=16, deadline=3, spawn=9, start=2),
@@ -101,6 +110,8 @@ def gen_case(seed, tier, prop):
                         "pre": rng.random() < 0.08}
                 if opts["deadline"] is not None and rng.random() < 0.3:
                     opts["setter"] = True        # the deadline is assigned through the property before the scope is entered
+                elif rng.random() < 0.35:
+                    opts["ctor"] = rng.choice(["move_on_after", "move_on_at", "fail_after", "fail_at"])
                 out.append(["scope", sid, opts, body(depth + 1, groups, scopes + [sid], budget, tid)])
             elif k == "cancel":
                 cands = list(scopes) + ["G%d" % g for g in groups]
@@ -160,6 +171,10 @@ def gen_case(seed, tier, prop):
                 out.append(["set", rng.randrange(nev)])
             elif k == "probe":
                 out.append(["probe"])
+            elif k == "ncancel" and st["tid"]:
+                # native asyncio cancellation of a whole task (C01 only: its rules do not depend on the scope model),
+                # without a message, with a string and with non-string messages
+                out.append(["ncancel", rng.randint(1, st["tid"]), rng.choice(["none", "str", "tuple", "int"])])
             elif k == "join" and st["tid"] > tid:
                 # only tasks created after the joiner: wait-for edges then always point to higher task ids
                 # (group host -> children, start() caller -> child, joiner -> later task), so no cycles
@@ -182,11 +197,25 @@ def gen_case(seed, tier, prop):
             ext.append([t, "cancel", "H%d" % rng.randint(1, st["tid"])])
         else:
             ext.append([t, "set", rng.randrange(nev)])
+    if prop == "C01" and st["tid"] and rng.random() < 0.35:
+        # native Task.cancel() of whole tasks from outside, possibly several times on the same task (a task group's
+        # host that is already unwinding with one cancellation gets another one while it waits for its children)
+        tgt = rng.randint(1, st["tid"])
+        for _ in range(rng.randint(1, 3)):
+            if rng.random() < 0.3:
+                tgt = rng.randint(1, st["tid"])
+            ext.append([rng.choice([0, 0.125, 0.125, 0.25, 0.25, 0.375, 0.5]), "ncancel",
+                        [tgt, rng.choice(["none", "str", "tuple", "int"])]])
+    exit_ncancel = {}
+    if prop == "C01" and st["gid"] and rng.random() < 0.3:
+        for _ in range(rng.randint(1, 2)):
+            exit_ncancel[str(rng.randint(1, st["gid"]))] = [rng.randint(0, 3), [rng.choice(["none", "str", "tuple", "int"])
+                                                                                for _ in range(rng.randint(1, 2))]]
     ext.sort(key=lambda e: e[0])
     loop = LoopConfig(eager=rng.random() < 0.25, cap=8000, p_late=rng.choice([0, 0, 0, 0.15]),
                       p_stall=rng.choice([0, 0, 0, 0.04])).to_json()
     return {"engine": "sc", "prop": prop, "prog": prog, "ext": ext, "nev": nev, "loop": loop,
-            "sched_seed": rng.getrandbits(32)}
+            "sched_seed": rng.getrandbits(32), "exit_ncancel": exit_ncancel}
 
 
 # ------------------------------------------------------------------------------------------
@@ -205,6 +234,9 @@ class SCRun:
         self.notes = Counter()
         self.active = {}                # sid -> CancelScope / ('H', handle)  (polled)
         self.started_objs = {}
+        self.fail_scopes = set()
+        self.lingerers = {}
+        self.ncancelled = {}
         self.foreign = set()            # ids of CancelledError objects raised by the program itself (not AnyIO's)
         self.foreign_keep = []
         self.scopes = {}                # sid -> CancelScope (ever created, for cancel/shield statements)
@@ -338,6 +370,11 @@ class SCRun:
         if effs[0] and all(effs) and e["out"] != "cancelled" and (name == "cp" or name.startswith("sleep") or name == "cleanup-cp"):
             self.v("C03.entered", f"task {b['tid']}: {name} entered at seq {b['seq']} inside an effectively cancelled "
                                   f"scope chain {chain} completed normally")
+            if b["tid"] in self.start_info:
+                # C07: a start() child is an ordinary member of its group as far as cancellation is concerned
+                self.v("C07.member_not_cancelled", f"start() child {b['tid']}: {name} entered at seq {b['seq']} inside the "
+                                                   f"effectively cancelled chain {chain} completed normally (a start_soon() "
+                                                   f"child would have been cancelled there)")
             self.sibling_rule(b, e, f"{name} entered at seq {b['seq']} completed normally")
         if effs[-1]:
             i = len(effs) - 1
@@ -351,6 +388,9 @@ class SCRun:
                 self.faults["cancel_while_blocked"] += 1
             if lat > LAT_BOUND:
                 self.sibling_rule(b, e, f"{name} stayed blocked for {lat} loop cycles")
+                if b["tid"] in self.start_info:
+                    self.v("C07.member_not_cancelled", f"start() child {b['tid']}: {name} stayed blocked for {lat} loop cycles "
+                                                       f"after its chain {chain} became effectively cancelled")
                 self.v("C03.latency", f"task {b['tid']}: {name} stayed blocked for {lat} loop cycles (bound {LAT_BOUND}) "
                                       f"after its scope chain {chain} became effectively cancelled at seq "
                                       f"{b['seq'] + i} (ended {e['out']})")
@@ -429,7 +469,7 @@ class SCRun:
                     self.faults["shield_toggle"] += 1
             elif k == "deadline":
                 sc = self.scopes.get(s[1])
-                if sc is not None and s[1] in self.active:
+                if sc is not None and s[1] in self.active and s[1] not in self.fail_scopes:
                     self.rec("deadlineset", tid, target=s[1], val=s[2])
                     sc.deadline = float("inf") if s[2] == "inf" else self.loop.time() + s[2]
                     self.faults["deadline_move"] += 1
@@ -453,10 +493,26 @@ class SCRun:
                 h = self.handles.get(s[1])
                 if h is not None and (tid == 0 or s[1] > tid):
                     await self.op(tid, chain, "join", h.wait)
+            elif k == "ncancel":
+                self.do_ncancel(tid, s[1], s[2])
             elif k == "tryfin":
                 await self.do_tryfin(tid, s, chain)
             elif k == "atimeout":
                 await self.do_atimeout(tid, s[1], s[2], chain)
+
+    def do_ncancel(self, by, target, msgkind):
+        t = self.task_of.get(target)
+        if t is None or t.done() or target == by or self.ncancelled.get(target, 0) >= 3:
+            return
+        self.ncancelled[target] = self.ncancelled.get(target, 0) + 1
+        self.rec("ncancel", by, target="T%d" % target)
+        self.faults["native_task_cancel"] += 1
+        if self.ncancelled[target] > 1:
+            self.faults["native_task_cancel_repeated"] += 1
+        if msgkind == "none":
+            t.cancel()
+        else:
+            t.cancel({"str": "stop it", "tuple": ("stop", target), "int": 7}[msgkind])
 
     def do_probe(self, tid, chain):
         r = self.rec("probe", tid)
@@ -510,12 +566,24 @@ class SCRun:
         kw = {}
         if opts["deadline"] is not None:
             kw["deadline"] = self.loop.time() + opts["deadline"]
+        cm = None
+        ctor = opts.get("ctor")
         if opts.get("setter") and kw:
             sc = CancelScope(shield=opts["shield"])
             sc.deadline = kw["deadline"]
+        elif ctor == "move_on_after" and not opts["pre"]:
+            # the same scope through its other public constructors (they must forward deadline and shield)
+            sc = anyio.move_on_after(opts["deadline"], shield=opts["shield"])
+        elif ctor == "move_on_at" and not opts["pre"]:
+            sc = anyio.move_on_at(kw.get("deadline", math.inf), shield=opts["shield"])
+        elif ctor in ("fail_after", "fail_at") and not opts["pre"] and not kw:
+            # without a deadline fail_after()/fail_at() never raise TimeoutError: plain scopes with a shield flag
+            cm = anyio.fail_after(None, shield=opts["shield"]) if ctor == "fail_after" else anyio.fail_at(math.inf, shield=opts["shield"])
+            sc = None
         else:
             sc = CancelScope(shield=opts["shield"], **kw)
-        self.scopes[sid] = sc
+        if sc is not None:
+            self.scopes[sid] = sc
         self.shield_tl[sid].append((self.seq, opts["shield"]))
         if opts["pre"]:
             self.rec("precancel", tid, target=sid)
@@ -527,10 +595,16 @@ class SCRun:
         escaped = None
         nchain = [sid] + list(chain)
         pre_rec = None
-        self.active[sid] = sc
+        if sc is not None:
+            self.active[sid] = sc
         enter_seq = self.rec("enter", tid, sid=sid)["seq"]
         try:
-            with sc:
+            with (cm if cm is not None else sc) as entered:
+                if cm is not None:
+                    sc = entered
+                    self.fail_scopes.add(sid)      # never given a deadline: fail_*() would turn it into a TimeoutError
+                    self.scopes[sid] = sc
+                    self.active[sid] = sc
                 try:
                     await self.body(tid, sb, nchain)
                 except BaseException as e:
@@ -654,6 +728,37 @@ class SCRun:
                     raise
                 finally:
                     self.rec("gbody_end", tid, gid=gid)
+                    nat = self.case.get("exit_ncancel", {}).get(str(gid))
+                    if nat:
+                        # directed fault (C01 runs): native cancellations of the host while the group is being left,
+                        # one or two of them, k loop cycles after the end of the body, with seeded message kinds
+                        host = asyncio.current_task()
+                        linger_state = self.lingerers.setdefault(gid, {"done": False})
+
+                        async def linger():
+                            # a child that needs a while to finish (clean-up behind a shield), so that the host really waits
+                            try:
+                                with CancelScope(shield=True):
+                                    await anyio.sleep(0.25)
+                            finally:
+                                linger_state["done"] = True
+                        if gid in self.groups:
+                            try:
+                                tg.start_soon(linger)
+                            except RuntimeError:
+                                linger_state["done"] = True
+
+                        def fire(left, msgs):
+                            if left > 0:
+                                self.loop.call_soon(fire, left - 1, msgs)
+                            elif not host.done() and gid in self.groups:
+                                self.rec("ncancel", "ext", target="host of G%d" % gid)
+                                self.faults["native_cancel_during_group_exit"] += 1
+                                m = msgs[0]
+                                host.cancel(*([] if m == "none" else [{"str": "stop it", "tuple": ("stop", gid), "int": 7}[m]]))
+                                if len(msgs) > 1:
+                                    self.loop.call_soon(fire, 1, msgs[1:])
+                        fire(nat[0], nat[1])
         except BaseException as e:
             raised = e
         self.active.pop(gs, None)
@@ -662,6 +767,9 @@ class SCRun:
         self.gexit[gid] = dict(seq=x["seq"], raised=raised, body_exc=body_exc, cancel_called=tg.cancel_scope.cancel_called,
                                chain=tuple(chain), tid=tid)
         # C01: everything spawned into the group is over
+        if gid in self.lingerers and not self.lingerers[gid]["done"]:
+            self.v("C01.alive", f"group {gid} exited ({type(raised).__name__ if raised is not None else 'normally'}: {raised!r}) "
+                                f"while a child that is finishing its clean-up behind a shield is still running")
         for ctid in self.members[gid]:
             t = self.task_of.get(ctid)
             h = self.handles.get(ctid)
@@ -860,6 +968,8 @@ class SCRun:
         for t, what, arg in self.case["ext"]:
             if what == "cancel":
                 loop.call_external_at(t, self.do_cancel, "ext", arg)
+            elif what == "ncancel":
+                loop.call_external_at(t, self.do_ncancel, "ext", arg[0], arg[1])
             else:
                 loop.call_external_at(t, self.ext_set, arg)
         loop.call_at(loop.time() + JANITOR_T, self.janitor)
@@ -1014,8 +1124,21 @@ class SCRun:
             for l in leaves(self.root_exc):
                 if not isinstance(l, BOOMS + (CancelledError, TimeoutError)) and not (
                         isinstance(l, RuntimeError) and "started" in str(l)):
-                    raise l         # an interpreter bug, not a property violation
-            self.post_checks()
+                    tb = l.__traceback__
+                    while tb is not None and tb.tb_next is not None:
+                        tb = tb.tb_next
+                    where = tb.tb_frame.f_code.co_filename if tb is not None else "?"
+                    if "/verif/" in where or where == "?":
+                        raise l         # raised by the interpreter itself: a harness bug, not a property violation
+                    # raised inside the library (or the standard library on its behalf): no program statement raises it
+                    import traceback
+                    self.v(self.case["prop"] + ".error",
+                           f"the program ended with {type(l).__name__}: {l} raised at {where.rsplit('/', 2)[-1]}:{tb.tb_lineno}, "
+                           f"which no statement of the program raises\n" + "".join(traceback.format_exception(l))[-900:],
+                           sig=self.case["prop"] + ".error:" + type(l).__name__)
+                    break
+            else:
+                self.post_checks()
         loop = sim.loop
         import hashlib
         h = hashlib.sha1()
